@@ -31,7 +31,7 @@ Inductive sem :=
 | SVoid (r : recv) (method : name) (args : list aexp)
 | SRet (w : rwrap) (r : recv) (method : name) (args : list aexp)
 | SOrDefault (rh rg : recv) (getter : name) (w : rwrap) (dflt : nat)     (* rh->hasReturnValue() ? w(rg->getter()) : p_dflt *)
-| SSelect (scope : aexp)
+| SSelect (scope : aexp) (rep : name)     (* currentMockSupport = &mock(scope, rep) *)
 | SInstallCmp | SInstallCopy | SRemoveAll
 | SBad.
 
@@ -79,7 +79,7 @@ Definition resolve_in (fs : list fdef) (n : name) : sem :=
             end
         | _, _ => SBad
         end
-    | BSelect a => SSelect a
+    | BSelect a r => SSelect a r
     | BInstallCmp => SInstallCmp | BInstallCopy => SInstallCopy | BRemoveAll => SRemoveAll
     | BOther _ => SBad
     end
@@ -281,14 +281,14 @@ Definition apply_sem (I : installer) (p : ptrs) (ad : adaptors) (k : nat) (field
           let (l', obj) := i_copy I (a_cps ad) (eval_arg vs (AParam 1)) in
           (p, {| a_cmps := a_cmps ad; a_cps := l' |}, XInstallCopy (p_sup p) (eval_arg vs (AParam 0)) obj)
       | SRemoveAll => (p, adaptors0, XRemoveAll (p_sup p))        (* both lists are deleted node by node, then the repository is emptied *)
-      | SSelect _ | SBad => (p, ad, XStuck)
+      | SSelect _ _ | SBad => (p, ad, XStuck)
       end
   end.
 
 (* mock_c() / mock_scope_c(scope): both must be `currentMockSupport = &mock(<scope>, ...)`; mock() / mock(scope) in C++ *)
 Definition select_ok : bool :=
   match resolve "mock_c", resolve "mock_scope_c" with
-  | SSelect (ALit l), SSelect (AParam 0) => l =? """"""
+  | SSelect (ALit l) _, SSelect (AParam 0) _ => l =? """"""
   | _, _ => false
   end.
 
@@ -424,39 +424,132 @@ Definition fits (w : rwrap) (r : xres) : bool :=
   end.
 Definition wrap_of (x : xop) : rwrap := match x with XRet w _ _ _ | XOrDefault _ _ _ w _ => w | _ => WNone end.
 
+(* ================================================================ failure reporters: HOW the test is left on a failure *)
+(* A mock failure is reported through a MockFailureReporter object; the object's crashOnFailure_ flag decides whether the crash hook
+   (UT_CRASH -> UtestShell::crash -> the function given to UtestShell::setCrashMethod) runs before the test is left.  Two reporter
+   objects exist in a scenario: the standard reporter (global_mock.defaultReporter_; MockSupport::clone hands the global's
+   standardReporter_ to every scope, so all supports share it) and failureReporterForC, the static of MockSupport_c.cpp.
+     mock(scope, r)                     : setActiveReporter(r): activeReporter_ = r ? r : standardReporter_      (gen: "mock", "setActiveReporter")
+     MockSupport::crashOnFailure(b)     : activeReporter_->crashOnFailure(b)                                      (gen: "crashOnFailure")
+     MockSupport::actualCall            : new MockCheckedActualCall(.., activeReporter_, ..): the call object keeps that reporter
+     a failure raised by a call object  : its own reporter_->failTest
+     a failure raised by MockSupport    : failTest = clear(); activeReporter_->failTest(failure)                  (checkExpectations: expected
+                                          calls that did not happen, calls out of order)
+     a CHECK inside the library         : no reporter (e.g. the type check of a MockNamedValue getter): never the crash hook
+     reporter->failTest                 : failWith(failure, TERMINATOR(crashOnFailure_)); TERMINATOR::exitCurrentTest = if (flag) UT_CRASH(); leave
+   The C interface differs from the C++ one in exactly one place: mock_c() / mock_scope_c() pass &failureReporterForC where a C++ user
+   passes nothing (NULL -> the standard reporter).  `rlayer` is what the rest of the code does with a reporter it holds (faithful code:
+   nothing -- clear() keeps activeReporter_, a new call takes activeReporter_); changed code is another rlayer. *)
+Inductive reporter := RepStd | RepC.
+Definition swap (r : reporter) : reporter := match r with RepStd => RepC | RepC => RepStd end.
+Notation scope := (option (list N)) (only parsing).
+Definition optbytes_eqb (a b : option (list N)) : bool :=
+  match a, b with Some x, Some y => bytes_eqb x y | None, None => true | _, _ => false end.
+Record callrec := { c_id : nat; c_scope : scope; c_rep : reporter }.     (* a checked actual call: the op that created it, its support, its reporter_ *)
+Record rstate := { rs_std : bool; rs_c : bool;                           (* crashOnFailure_ of the two reporter objects *)
+                   rs_active : list (scope * reporter);                  (* activeReporter_ of every mock support that exists *)
+                   rs_calls : list callrec }.                            (* the call objects that exist *)
+Definition rstate0 : rstate := {| rs_std := false; rs_c := false; rs_active := []; rs_calls := [] |}.
+Record rlayer := { l_given : scope -> reporter;            (* the reporter setActiveReporter ends up with when THIS interface selects the support *)
+                   l_clear : reporter -> reporter;         (* activeReporter_ after clear(), from activeReporter_ before *)
+                   l_call : reporter -> reporter }.        (* reporter_ of a new actual call, from activeReporter_ *)
+
+Definition flag (s : rstate) (r : reporter) : bool := match r with RepStd => rs_std s | RepC => rs_c s end.
+Definition set_flag (s : rstate) (r : reporter) (b : bool) : rstate :=
+  match r with
+  | RepStd => {| rs_std := b; rs_c := rs_c s; rs_active := rs_active s; rs_calls := rs_calls s |}
+  | RepC => {| rs_std := rs_std s; rs_c := b; rs_active := rs_active s; rs_calls := rs_calls s |}
+  end.
+Definition rs_get (s : rstate) (sc : scope) : option reporter :=
+  option_map snd (find (fun e => optbytes_eqb (fst e) sc) (rs_active s)).
+Definition rs_set (s : rstate) (sc : scope) (r : reporter) : rstate :=
+  {| rs_std := rs_std s; rs_c := rs_c s; rs_active := (sc, r) :: filter (fun e => negb (optbytes_eqb (fst e) sc)) (rs_active s); rs_calls := rs_calls s |}.
+Definition is_global (sc : scope) : bool := match sc with None => true | Some _ => false end.
+(* MockSupport::clear() of support sc: its last actual call is deleted; the global support also clears and deletes every scope *)
+Definition rs_clear (L : rlayer) (s : rstate) (sc : scope) : rstate :=
+  {| rs_std := rs_std s; rs_c := rs_c s;
+     rs_active := map (fun e => if optbytes_eqb (fst e) sc then (fst e, l_clear L (snd e)) else e)
+                      (filter (fun e => negb (is_global sc) || is_global (fst e)) (rs_active s));
+     rs_calls := filter (fun c => negb (is_global sc) && negb (optbytes_eqb (c_scope c) sc)) (rs_calls s) |}.
+Definition receiver (x : xop) : option scope :=
+  match x with
+  | XChain (HSup sc) _ _ _ | XVoid (HSup sc) _ _ | XRet _ (HSup sc) _ _ | XOrDefault (HSup sc) _ _ _ _ => Some sc
+  | _ => None
+  end.
+(* what op number k does to the reporters (an ignored call is over-approximated by a call object that never fails) *)
+Definition rstep (L : rlayer) (s : rstate) (k : nat) (x : xop) : rstate :=
+  match x with
+  | XSelect sc => rs_set s sc (l_given L sc)
+  | XVoid (HSup sc) m args =>
+      if m =? "crashOnFailure" then match args, rs_get s sc with [XBool b], Some r => set_flag s r b | _, _ => s end
+      else if m =? "clear" then rs_clear L s sc
+      else s
+  | XChain (HSup sc) m _ RAct =>
+      if m =? "actualCall"
+      then match rs_get s sc with
+           | Some r => {| rs_std := rs_std s; rs_c := rs_c s; rs_active := rs_active s;
+                          rs_calls := {| c_id := k; c_scope := sc; c_rep := l_call L r |} :: filter (fun c => negb (optbytes_eqb (c_scope c) sc)) (rs_calls s) |}
+           | None => s
+           end
+      else s
+  | _ => s
+  end.
+(* who raises the failure of an operation (the machine says): the actual call object created by op j, the mock support the
+   operation was called on, or a plain CHECK of the library *)
+Inductive raiser := ByCall (j : nat) | BySupport | ByAssert.
+Definition armed (s : rstate) (r : option reporter) : N := match r with Some r => if flag s r then 1%N else 0%N | None => 0%N end.
+(* how often the crash hook runs when op x (state before: s, after: s') fails *)
+Definition crash_on (L : rlayer) (s s' : rstate) (x : xop) (by_ : raiser) : N :=
+  match by_ with
+  | ByAssert => 0%N
+  | ByCall j => armed s' (option_map c_rep (find (fun c => Nat.eqb (c_id c) j) (rs_calls s' ++ rs_calls s)))   (* the new call, or the one this op deletes *)
+  | BySupport => match receiver x with
+                 | Some sc => let s2 := rs_clear L s' sc in armed s2 (rs_get s2 sc)        (* failTest: clear(); activeReporter_->failTest *)
+                 | None => 0%N
+                 end
+  end.
+
 (* ================================================================ machines, observations, run, spec *)
-Record mres := { r_fail : option (list N); r_val : xres }.      (* failure text (the test is left) / value returned *)
+Record mres := { r_fail : option (list N); r_by : raiser; r_val : xres }.      (* failure text + who raised it (the test is left) / value returned *)
 Record machine := { mst : Type; minit : mst; mexec : mst -> nat -> xop -> mst * mres; mouts : mst -> list (N * list N) }.
 
 Record oval := { v_op : N; v_canon : canon }.
-Record half := { h_fail : option (N * list N); h_vals : list oval; h_outs : list (N * list N) }.
+Record half := { h_fail : option (N * list N); h_crash : N; h_vals : list oval; h_outs : list (N * list N) }.
 Record obs := { o_c : half; o_x : half }.
 
-Fixpoint exec (M : machine) (observe : rwrap -> xres -> option canon) (st : mst M) (k : nat) (tr : list xop) (vals : list oval) : half :=
+Fixpoint exec (M : machine) (L : rlayer) (observe : rwrap -> xres -> option canon) (st : mst M) (rs : rstate) (k : nat) (tr : list xop)
+              (vals : list oval) : half :=
   match tr with
-  | [] => {| h_fail := None; h_vals := rev vals; h_outs := mouts M st |}
+  | [] => {| h_fail := None; h_crash := 0; h_vals := rev vals; h_outs := mouts M st |}
   | x :: r =>
       let (st', res) := mexec M st k x in
+      let rs' := rstep L rs k x in
       match r_fail res with
-      | Some text => {| h_fail := Some (N.of_nat k, text); h_vals := rev vals; h_outs := mouts M st' |}
-      | None => exec M observe st' (S k) r
+      | Some text => {| h_fail := Some (N.of_nat k, text); h_crash := crash_on L rs rs' x (r_by res); h_vals := rev vals; h_outs := mouts M st' |}
+      | None => exec M L observe st' rs' (S k) r
                   (match observe (wrap_of x) (r_val res) with Some c => {| v_op := N.of_nat k; v_canon := c |} :: vals | None => vals end)
       end
   end.
-Definition run_with (M : machine) (ops : list op) : obs :=
-  {| o_c := exec M observe_c (minit M) 0 (c_trace ops) []; o_x := exec M (fun _ => observe_x) (minit M) 0 (x_trace ops) [] |}.
+(* the reporter each interface hands to mock(): C: what the regenerated mock_c / mock_scope_c forwarders pass; C++: nothing *)
+Definition c_reporter_name : name := "&failureReporterForC".
+Definition given_of (s : sem) : reporter := match s with SSelect _ r => if r =? c_reporter_name then RepC else RepStd | _ => RepStd end.
+Definition faithful_layer (given : scope -> reporter) : rlayer := {| l_given := given; l_clear := fun r => r; l_call := fun r => r |}.
+Definition c_layer : rlayer := faithful_layer (fun sc => given_of (resolve (if is_global sc then "mock_c" else "mock_scope_c"))).
+Definition x_layer : rlayer := faithful_layer (fun _ => RepStd).
+Definition run_layers (Lc Lx : rlayer) (M : machine) (ops : list op) : obs :=
+  {| o_c := exec M Lc observe_c (minit M) rstate0 0 (c_trace ops) []; o_x := exec M Lx (fun _ => observe_x) (minit M) rstate0 0 (x_trace ops) [] |}.
+Definition run_with : machine -> list op -> obs := run_layers c_layer x_layer.
 
 (* the machine used by the extracted model: no checked calls, nothing fails, nothing is returned (the C++ machinery itself is the
    subject of C08/C09; here it is a parameter) *)
 Definition machine0 : machine :=
-  {| mst := unit; minit := tt; mexec := fun st _ _ => (st, {| r_fail := None; r_val := RNone |}); mouts := fun _ => [] |}.
+  {| mst := unit; minit := tt; mexec := fun st _ _ => (st, {| r_fail := None; r_by := ByAssert; r_val := RNone |}); mouts := fun _ => [] |}.
 Definition run : list op -> obs := run_with machine0.
 
-(* spec: the two interfaces gave the same verdict, left the test at the same op with the same text, returned the same values with
+(* spec: the two interfaces gave the same verdict, left the test at the same op with the same text and the same number of runs of the
+   crash hook, returned the same values with
    the same type tags at the same ops, and left the same bytes in the output buffers *)
 Definition pk_eqb (a b : pk) : bool := match a, b with PVoid, PVoid | PConst, PConst | PFunc, PFunc | PMem, PMem | PObj, PObj => true | _, _ => false end.
-Definition optbytes_eqb (a b : option (list N)) : bool :=
-  match a, b with Some x, Some y => bytes_eqb x y | None, None => true | _, _ => false end.
 Definition canon_eqb (a b : canon) : bool :=
   match a, b with
   | CB x, CB y => Bool.eqb x y | CI t x, CI u y => ity_eqb t u && (x =? y)%Z | CD x, CD y => (x =? y)%Z
@@ -470,6 +563,7 @@ Definition half_eqb (a b : half) : bool :=
   | Some (i, s), Some (j, t) => (i =? j)%N && bytes_eqb s t
   | _, _ => false
   end
+  && (h_crash a =? h_crash b)%N
   && list_eqb (fun x y => (v_op x =? v_op y)%N && canon_eqb (v_canon x) (v_canon y)) (h_vals a) (h_vals b)
   && list_eqb (fun x y => (fst x =? fst y)%N && bytes_eqb (snd x) (snd y)) (h_outs a) (h_outs b).
 Definition spec (ops : list op) (o : obs) : bool := half_eqb (o_c o) (o_x o).
